@@ -173,14 +173,9 @@ pub open spec fn spec_base_fee(tx: Transaction, mult: u128) -> nat {
 pub open spec fn spec_output_coinid(tx: Transaction, i: u8) -> CoinID { CoinID { txhash: spec_txhash(tx), index: i } }
 impl Transaction {
     #[verifier::external_body] pub fn hash_nosigs(&self) -> (r: TxHash) ensures r == spec_txhash(*self) { unimplemented!() }
-    #[verifier::external_body] pub fn is_well_formed(&self) -> (r: bool) ensures r == spec_well_formed(*self) { unimplemented!() }
     #[verifier::external_body] pub fn output_coinid(&self, index: u8) -> (r: CoinID) ensures r == spec_output_coinid(*self, index) { unimplemented!() }
     /// Transaction::weight(cov_to_weight): serialized length + covenant weights + output penalty - input boon (saturating)
     #[verifier::external_body] pub fn weight<F: Fn(&[u8]) -> u128>(&self, cov_to_weight: F) -> (r: u128) ensures r == spec_tx_weight(*self) { unimplemented!() }
-    #[verifier::external_body]
-    pub fn base_fee<F: Fn(&[u8]) -> u128>(&self, fee_multiplier: u128, ballast: u128, cov_to_weight: F) -> (r: CoinValue)
-        ensures ballast == 0 ==> r.0 == spec_base_fee(*self, fee_multiplier)
-    { unimplemented!() }
 }
 impl CoinID {
     pub fn new(txhash: TxHash, index: u8) -> (r: CoinID) ensures r == (CoinID { txhash, index }) { CoinID { txhash, index } }
